@@ -1,14 +1,14 @@
 SPECIFICATION Spec
 VIEW view
 CONSTANTS
-  Mode = "walk"
+  Mode = "deep"
   LeafSet = "bool"
   Depth = 0
   ParenStyles = {}
   SpellNames = {}
   EmitTrees = FALSE
-  Alpha = "A"
+  Alpha = "S"
   MaxLen = 3
-  TailLen = 1
-  DeepReps = {}
+  TailLen = 0
+  DeepReps = {1000, 3000000}
 INVARIANT Emit
